@@ -34,8 +34,41 @@ import (
 	"go.uber.org/zap"
 )
 
+type c19Topic struct {
+	req, id int
+	topic   string // the record's topic string itself (not a copy): must stay intact after the batch is committed
+}
+
 type c19Producer struct {
 	c19Capture
+	topics []c19Topic
+}
+
+func c19WantTopic(route string) string {
+	if route == "" {
+		return "c19-default"
+	}
+	return route
+}
+
+// after the batch was committed and its event buffers were overwritten: the topics handed to the client must
+// still read as the routing values of their own events (cloned, not aliased to event memory)
+func (m *c19Producer) recheck() {
+	m.mu.Lock()
+	defer m.mu.Unlock()
+	for _, t := range m.topics {
+		if want := c19WantTopic(m.route[t.id]); t.topic != want && t.req < len(m.reqs) {
+			already := false
+			for _, x := range m.reqs[t.req].Routing {
+				already = already || x.ID == t.id
+			}
+			if !already {
+				m.reqs[t.req].Routing = append(m.reqs[t.req].Routing, c19Framing{Where: "topic_aliased_to_event_buffer", ID: t.id,
+					Text: c19Clip(fmt.Sprintf("got %q want %q", t.topic, want))})
+			}
+		}
+	}
+	m.topics = nil
 }
 
 func (m *c19Producer) ProduceSync(_ context.Context, rs ...*kgo.Record) kgo.ProduceResults {
@@ -57,6 +90,13 @@ func (m *c19Producer) ProduceSync(_ context.Context, rs ...*kgo.Record) kgo.Prod
 		r.IDs = append(r.IDs, id)
 		if o, ok := m.orig[id]; ok && !c19SameJSON(o, val) {
 			r.DocDiff = append(r.DocDiff, id)
+		}
+		// abstraction function returns (topic, id): the topic is the event's own svc, else default_topic
+		if rt, known := m.route[id]; known {
+			if want := c19WantTopic(rt); rec.Topic != want {
+				r.Routing = append(r.Routing, c19Framing{Where: "topic", ID: id, Text: c19Clip(fmt.Sprintf("got %q want %q", rec.Topic, want))})
+			}
+			m.topics = append(m.topics, c19Topic{req: len(m.reqs), id: id, topic: rec.Topic})
 		}
 	}
 	if m.fail {
@@ -125,8 +165,16 @@ func (w *c19KafkaWorker) run(c *c19Case) (res c19CaseRes) {
 	for bi, b := range c.Batches {
 		x := c19MakeEvents(b, &seq)
 		defer x.release()
-		prod.arm(c.Pats[bi], x.orig, c19Fail(c, bi))
+		prod.arm(c.Pats[bi], x, c19Fail(c, bi))
 		acked := c19Feed(p.Out, x, ctl)
+		if acked {
+			// what the event pool does next: the committed events' buffers are reused for other documents
+			for i, root := range x.roots {
+				n := len(x.orig[b[i].ID])
+				_ = root.DecodeString(`{"z":"` + strings.Repeat("Z", max(n-8, 1)) + `"}`)
+			}
+			prod.recheck()
+		}
 		res.Batches = append(res.Batches, c19BatchRes{Reqs: prod.take(), Acked: acked})
 		if !acked {
 			break
@@ -176,6 +224,7 @@ type c19Req struct {
 	Status  int          `json:"st"`
 	Framing []c19Framing `json:"framing,omitempty"`
 	DocDiff []int        `json:"doc_diff,omitempty"`
+	Routing []c19Framing `json:"routing,omitempty"` // routing value of a record is not the one of its own event
 	Bytes   int          `json:"bytes"`
 }
 
@@ -217,6 +266,38 @@ func c19Val(class int) (string, bool) {
 	default:
 		return `"a\u0001\tb"`, true
 	}
+}
+
+// the same value as the raw string a plugin reads with AsString(); "" when absent or empty
+func c19ValRaw(class int) string {
+	switch class {
+	case 0:
+		return "svc-a"
+	case 1, 2:
+		return ""
+	case 3:
+		return "a\xff\xfeb"
+	case 4:
+		return "ü %z ☃"
+	case 5:
+		return `a"b`
+	case 6:
+		return `a\b`
+	case 7:
+		return "a\nb"
+	case 8:
+		return "x\"}}\n{\"index\":{\"_index\":\"y"
+	default:
+		return "a\x01\tb"
+	}
+}
+
+// a string as encoding/json hands it back (every invalid UTF-8 byte -> U+FFFD), for comparisons with decoded JSON
+func c19Norm(s string) string {
+	b, _ := json.Marshal(s)
+	var out string
+	_ = json.Unmarshal(b, &out)
+	return out
 }
 
 func c19Msg(id int) string {
@@ -306,16 +387,17 @@ func c19Rejects(pat [][]int, ids []int) bool {
 // ---- capture: what the sink saw for the batch in flight ------------------------------------------------
 
 type c19Capture struct {
-	mu   sync.Mutex
-	pat  [][]int
-	fail bool
-	orig map[int][]byte
-	reqs []c19Req
+	mu    sync.Mutex
+	pat   [][]int
+	fail  bool
+	orig  map[int][]byte
+	route map[int]string // id -> the event's own routing value ("" = absent or empty)
+	reqs  []c19Req
 }
 
-func (s *c19Capture) arm(pat [][]int, orig map[int][]byte, fail bool) {
+func (s *c19Capture) arm(pat [][]int, x *c19Events, fail bool) {
 	s.mu.Lock()
-	s.pat, s.orig, s.fail, s.reqs = pat, orig, fail, nil
+	s.pat, s.orig, s.route, s.fail, s.reqs = pat, x.orig, x.route, fail, nil
 	s.mu.Unlock()
 }
 
@@ -328,7 +410,7 @@ func (s *c19Capture) take() []c19Req {
 // in-process HTTP sink: parses every body with the sink-specific abstraction function, answers 413 by pattern
 type c19HTTPSink struct {
 	c19Capture
-	parse    func(body []byte, orig map[int][]byte) c19Req
+	parse    func(body []byte, orig map[int][]byte, route map[int]string) c19Req
 	okStatus int
 	okBody   string
 }
@@ -336,7 +418,7 @@ type c19HTTPSink struct {
 func (s *c19HTTPSink) ServeHTTP(w http.ResponseWriter, req *http.Request) {
 	body, _ := io.ReadAll(req.Body)
 	s.mu.Lock()
-	r := s.parse(body, s.orig)
+	r := s.parse(body, s.orig, s.route)
 	r.Bytes = len(body)
 	if r.IDs == nil {
 		r.IDs = []int{}
@@ -403,6 +485,7 @@ var c19Values = map[string]int{"gomaxprocs": 1, "capacity": 64}
 type c19Events struct {
 	evs   []*pipeline.Event
 	orig  map[int][]byte
+	route map[int]string
 	roots []*insaneJSON.Root
 }
 
@@ -415,10 +498,11 @@ func (x *c19Events) release() {
 // the events of one batch; the last one carries a Size that seals the batch through batch_size_bytes, so batch
 // boundaries are exactly the case's, without any timing
 func c19MakeEvents(b []c19Ev, seq *uint64) *c19Events {
-	x := &c19Events{orig: map[int][]byte{}}
+	x := &c19Events{orig: map[int][]byte{}, route: map[int]string{}}
 	for i, e := range b {
 		js := c19EventJSON(e)
 		x.orig[e.ID] = js
+		x.route[e.ID] = c19ValRaw(e.Val)
 		root := insaneJSON.Spawn()
 		x.roots = append(x.roots, root)
 		if err := root.DecodeBytes(js); err != nil {
